@@ -289,6 +289,8 @@ def core_skips(repo, res):
 
 
 def run(repo, res, tier):
+    from vlib import rules_fieldcover as FC
+    FC.fieldcover(repo, res, "dfa::Inp::get_fallback_level", "Inp", "fallback_level", "value")  # the `||` index of every kind of item is visible to the table builders
     levelfield(repo, res)
     core_skips(repo, res)
     arena_immut(repo, res, tier)
